@@ -23,8 +23,9 @@ import (
 // handlers (captured at registration) and the real worker step on a recording queue.
 
 type recQueue struct {
-	items []interface{}
-	log   []string
+	items    []interface{}
+	log      []string
+	requeues int // consecutive rate-limited requeues since the last Forget (what a real rate limiter counts)
 }
 
 func (q *recQueue) Add(item interface{}) {
@@ -51,8 +52,11 @@ func (q *recQueue) AddAfter(item interface{}, d time.Duration) {
 func (q *recQueue) AddRateLimited(item interface{}) {
 	q.log = append(q.log, "AddRateLimited "+item.(string))
 }
-func (q *recQueue) Forget(item interface{})          { q.log = append(q.log, "Forget "+item.(string)) }
-func (q *recQueue) NumRequeues(item interface{}) int { return 0 }
+func (q *recQueue) Forget(item interface{}) {
+	q.requeues = 0
+	q.log = append(q.log, "Forget "+item.(string))
+}
+func (q *recQueue) NumRequeues(item interface{}) int { return q.requeues }
 
 type podShape struct {
 	Owner  string // none | A | Astale | Akind | Anonctrl | B | C(unknown set)
@@ -264,7 +268,7 @@ func setStr(m map[string]bool) string {
 func init() {
 	register("c16", "no lost wake-ups: event handlers and worker requeue discipline", func([]string) int {
 		rep := explore.NewReport("C16", "model_checking")
-		rep.Rule = "exhaustive event shapes on the real handlers registered by the real constructor: sets web (app=web) and db (tier=db, or overlapping app=web) in the lister; pod shapes = owner{none, web right UID, web stale UID, ReplicaSet named web, non-controller ref, db, unknown set} x labels{web, db, both, unrelated, nil} x terminating; events = add(shape), update(old shape x new shape x same/different resourceVersion), delete(object), delete(tombstone with pod), delete(tombstone with junk), delete(junk); set add/update/delete/tombstone; worker = every success/failure sequence of length <=4 (failure = InternalError on the first API call). Oracle: required subset of enqueued subset of allowed keys by a reference function written from the property; failure => AddRateLimited and no Forget, success => Forget, Done always. Non-trivial = the reference requires or allows at least one key."
+		rep.Rule = "exhaustive event shapes on the real handlers registered by the real constructor: sets web (app=web) and db (tier=db, or overlapping app=web) in the lister; pod shapes = owner{none, web right UID, web stale UID, ReplicaSet named web, non-controller ref, db, unknown set} x labels{web, db, both, unrelated, nil} x terminating; events = add(shape), update(old shape x new shape x same/different resourceVersion), delete(object), delete(tombstone with pod), delete(tombstone with junk), delete(junk); set add/update/delete/tombstone; worker = every success/failure sequence of length <=4 and every run of 5..40 consecutive failures followed by a success (failure = InternalError on the first API call; the recording queue counts requeues like a real rate limiter). Oracle: required subset of enqueued subset of allowed keys by a reference function written from the property; failure => AddRateLimited and no Forget, success => Forget, Done always. Non-trivial = the reference requires or allows at least one key."
 		rep.Assumptions = []string{"selectors in the lister are valid ones", "orphan update without label/owner change and orphan delete are don't-care (property does not fix them)"}
 		var owners = []string{"none", "A", "Astale", "Akind", "Anonctrl", "B", "C"}
 		var labs = []string{"A", "B", "both", "none", "nil"}
@@ -359,8 +363,24 @@ func init() {
 			}
 			// worker discipline: all success/failure sequences up to length 4
 			key := world.NS + "/web"
+			type wseq struct {
+				n    int
+				mask uint64
+			}
+			var wseqs []wseq
 			for n := 1; n <= 4; n++ {
-				for mask := 0; mask < 1<<n; mask++ {
+				for mask := uint64(0); mask < 1<<n; mask++ {
+					wseqs = append(wseqs, wseq{n, mask})
+				}
+			}
+			// long outages: k consecutive failures (k up to 40) followed by a success
+			for k := 5; k <= 40; k++ {
+				wseqs = append(wseqs, wseq{k + 1, 1<<k - 1})
+			}
+			for _, ws := range wseqs {
+				{
+					n, mask := ws.n, ws.mask
+					q.requeues = 0
 					w.Load(st)
 					var seq []string
 					bad := ""
